@@ -5,6 +5,14 @@ HERE = os.path.dirname(os.path.abspath(__file__))
 BASELINE = "cd /repo && /venv/bin/python -m pytest -ra -q -p no:cacheprovider --timeout=900 --continue-on-collection-errors"
 
 CLAIMED = {
+    'C08': dict(
+        design='4.8',
+        text='Very narrow kernel: numeric.ext(A) for n = 1, 2, 3 (all cases implemented) and all real entries is orthogonal to every column of A, has squared length det(A^T A) '
+             '(the surface measure) and the orientation det([A|ext]) = +|ext|^2 (n=1,3) / -|ext|^2 (n=2) that the edge transforms rely on; transform.Updim.ext negates it exactly when isflipped. '
+             'Polynomial identities over the reals, z3 nonlinear arithmetic, no bound.',
+        note='Everything else in the property (gradients, div, curl, laplace, Jacobians, divergence theorem, normalisation, orientation parity of tensor edges, independence of parametrisation) '
+             'needs calculus and n-dimensional array semantics and is OUTSIDE: read this claim as "the algebraic core of the edge normal is right". Floats treated as reals.',
+        technique='contract-based deductive verification: ast->z3 (NRA) on the real function bodies'),
     'C04': dict(
         design='4.4',
         text='Kernel only: for 13 Pointwise classes (Cos, Sin, Tan, ArcSin, ArcCos, ArcTan, CosH, SinH, TanH, Exp, Log, Minimum, Maximum; 15 table entries) a Lean 4 theorem '
@@ -124,7 +132,7 @@ NOT_APPLICABLE = {
     'C02': 'whole-DAG faithful translation into generated numpy programs: no function-level postcondition carries it; would need a denotational semantics of ~150 node classes and of the generated code (DESIGN 4.2)',
     'C03': 'history/non-interference property of a program that exists only as a generated string; no per-function contract expresses it (DESIGN 4.3)',
 }
-PENDING = ['C08', 'C10', 'C16', 'C18', 'C19']
+PENDING = ['C10', 'C16', 'C18', 'C19']
 
 
 def main():
